@@ -112,7 +112,7 @@ CHECKS.update({
    text='Machine-checked proof (Coq) that a may-alias write analysis over an effect language is sound (and exact on call-free programs); effect programs for ~90 public entry points are EXTRACTED from the AST every run and '
         'vm_compute proves an all-false verdict for each, hence arguments are bit-for-bit unchanged for every view/copy oracle; plot figures contain every given row exactly once under the right label (Permutation proof over a model of px.scatter). '
         'Tie: extraction + dynamic correspondence (every entry point called twice with deep-snapshotted arguments of every container kind; observed mutation verdict = model verdict; figures vs Model.Plot).',
-   note=TB + 'the extractor and its numpy/pandas alias table are trusted (validated by the verdict correspondence); plotly modelled as one trace per colour value; callbacks assumed not to write their arguments.',
+   note=TB + 'the extractor and its numpy/pandas alias table are trusted (validated by the verdict correspondence); plotly modelled as one trace per colour value; callbacks assumed not to write their arguments; the 1-d functions (_generate_1d_plot, dist_1d, compare_1d), PlotConfig colours and the label / colour-map constants are generated by tools/vf/plot1dgen.py and proved equal to the extended Model.Plot (Props/C20_1d.v); plotly 7.1 installed here has no figure_factory.create_distplot, so the 1-d correspondence runs against a transcription of plotly 5\'s function (evidence: plot1d_backend).',
    technique='Coq-proved sound effect analysis on AST-extracted programs; scatter/compare pipeline generated from the AST with bridge theorems to Model.Plot (C20_bridge_*); snapshot-based dynamic correspondence',
    ref='DESIGN.md section 7, C20'),
 })
@@ -143,8 +143,8 @@ CHECKS.update({
         '(full for every family except GaussianKDE whose cached sample size refutes it, with witness), every query and sample of an unfitted model raises NotFittedError and touches no generator (full for the bivariate classes since the F23 fix; vines since F30), multivariate validation leaves the state unchanged, get_instance returns a fresh configured object, '
         'definition-before-use of np.empty cells in vines (refuted with witness); AST-generated facts (store_args classes, validated fits, check_fit-first methods, guard shapes, fit writes) decided by vm_compute. '
         'Tie: random and scripted fit/query histories on the real classes vs vm_compute of the machine over captured oracle tables; refit-vs-fresh and misuse oracles on every class incl. vines.',
-   note=TB + 'Model.Lifecycle is tied to the source by proof, layer by layer, each generated from the AST on every run and proved equal to the model for all states and inputs: the control skeleton of Univariate/ScipyModel (unictlgen.py, C19_bridge_*), the family hooks of the eight classes, GaussianKDE._get_model/_set_params/pdf/logpdf/sample and the selecting wrapper (uniwrapgen.py, C19_bridge2_*), GaussianMultivariate / Multivariate fit, queries, to_dict/from_dict (gmctlgen.py, coq/Lib/PyGM.v, C19_bridge_gm_*), copulas/utils.py get_instance / get_qualified_name / store_args / check_valid_values (utilsgen.py, C19u_bridge_*), the Bivariate constructor / queries / serialisation (bivlifegen.py, coq/Lib/PyBivLife.v, C14_bridge_*); nine modelling errors of the hand-written model were found by bridges that did not go through and corrected; still hand-written (history correspondence): GaussianKDE.cumulative_distribution / percent_point / _get_bounds, the _constant_* methods, the constructors; scipy fits/optimisers are oracle tables captured per run; datasets are abstracted to (identity, constant?, range, size).',
-   technique='Coq induction over fit histories on life-cycle state machines; the control skeletons of the univariate, wrapper, Gaussian-multivariate and bivariate classes and of copulas/utils.py generated from the AST with bridge theorems (C19_bridge_*, C19_bridge2_*, C19_bridge_gm_*, C19u_bridge_*, C14_bridge_*); AST facts; history correspondence',
+   note=TB + 'Model.Lifecycle is tied to the source by proof, layer by layer, each generated from the AST on every run and proved equal to the model for all states and inputs: the control skeleton of Univariate/ScipyModel (unictlgen.py, C19_bridge_*), the family hooks of the eight classes, GaussianKDE._get_model/_set_params/pdf/logpdf/sample and the selecting wrapper (uniwrapgen.py, C19_bridge2_*), GaussianMultivariate / Multivariate fit, queries, to_dict/from_dict (gmctlgen.py, coq/Lib/PyGM.v, C19_bridge_gm_*), copulas/utils.py get_instance / get_qualified_name / store_args / check_valid_values (utilsgen.py, C19u_bridge_*), the Bivariate constructor / queries / serialisation (bivlifegen.py, coq/Lib/PyBivLife.v, C14_bridge_*); nine modelling errors of the hand-written model were found by bridges that did not go through and corrected; the control of GaussianKDE.cumulative_distribution / percent_point / _get_bounds, the four _constant_* methods and the constructors composed with the generated @store_args (kdeqgen.py, coq/Lib/PyKdeQ.v, C19_bridge3_*); still hand-written: save / load of the univariate and multivariate classes, select_univariate's KS loop (oracle); scipy fits/optimisers are oracle tables captured per run; datasets are abstracted to (identity, constant?, range, size).',
+   technique='Coq induction over fit histories on life-cycle state machines; the control skeletons of the univariate, wrapper, Gaussian-multivariate and bivariate classes and of copulas/utils.py generated from the AST with bridge theorems (C19_bridge_*, C19_bridge2_*, C19_bridge3_*, C19_bridge_gm_*, C19u_bridge_*, C14_bridge_*); AST facts; history correspondence',
    ref='DESIGN.md section 7, C19'),
 })
 CHECKS.update({
@@ -168,7 +168,7 @@ CHECKS.update({
         'provenance F(L|D), F(R|D) proved for trees 1-2 of every vine, for every centre vine and for all hereditarily-good edges, REFUTED with witnesses from tree 3 on for direct/regular vines; likelihood = sum of log pair densities and a function of (model,u) when every read is defined (def-before-use refuted in the bad case); '
         'the sampler assigns every variable exactly once (DFS over a connected tree), sample shape, two-column reduction with the documented top-1% collapse, clipping strictly inside (0,1) with generated constants. '
         'PARTIAL: reproduction of marginals/tau within sampling error is statistical (search only).',
-   note=TB + 'Model.VineData is tied to the source by proof for get_conditional_uni (vinegen.py, C17_bridge_get_conditional_uni), Tree.prepare_next_tree, Edge / Tree / VineCopula.get_likelihood and the two inner loops of _sample_row (tools/vf/vinedatagen.py, coq/Lib/PyCols.v, Props/C17_data.v: C17_bridge_prepare_next_tree, _Edge_get_likelihood, _Tree_get_likelihood, _VineCopula_get_likelihood, _sample_find_edge, _sample_level_step; the F10b reads of unwritten cells are theorems about the GENERATED likelihood); the outer loop of _sample_row and VineCopula.sample stay hand-written unless Props/C17_sample.v is present (correspondence by content-tagged arrays on the real classes); select_copula and h are symbolic oracles.',
+   note=TB + 'Model.VineData is tied to the source by proof for get_conditional_uni (vinegen.py, C17_bridge_get_conditional_uni), Tree.prepare_next_tree, Edge / Tree / VineCopula.get_likelihood and the two inner loops of _sample_row (tools/vf/vinedatagen.py, coq/Lib/PyCols.v, Props/C17_data.v: C17_bridge_prepare_next_tree, _Edge_get_likelihood, _Tree_get_likelihood, _VineCopula_get_likelihood, _sample_find_edge, _sample_level_step; the F10b reads of unwritten cells are theorems about the GENERATED likelihood); and the WHOLE of _sample_row, VineCopula.sample and Tree.get_adjacent_matrix (tools/vf/vinesamplegen.py, coq/Lib/PyVineSample.v, Props/C17_sample.v: C17_bridge_sample_row, C17_bridge_sample, C17_gen_sample_shape) (correspondence by content-tagged arrays on the real classes); select_copula and h are symbolic oracles.',
    technique='Coq proof over a symbolic data-flow model; prepare_next_tree, the likelihood recursion and the inner sampler loops generated from the AST and proved equal to the model (bridge theorems); tag-based vm_compute correspondence; generated clip constants',
    ref='DESIGN.md section 7, C17'),
 })
@@ -178,7 +178,7 @@ CHECKS.update({
         'bivariate copulas and GaussianMultivariate, idempotence under n round trips (induction), type dispatch of the generic entry points (incl. subclass entry points, and Multivariate.from_dict on vine dicts since the F38 fix), JSON-safety of univariate/bivariate/Gaussian dicts and non-safety of vine dicts (Python set under D), '
         'vine/tree/edge round trip with re-linking of previous_tree and parents; refutations with witnesses for the open defects (KDE options, StudentT constant, nested KDE dataset, std underflow, independence dispatch). AST-generated key sets (emitted/consumed keys per class) decided by vm_compute. '
         'Tie: real round trips (dict, JSON text, pickle/JSON files, repeated 1..3 times) checked inside Coq against the model on exact rationals; bitwise behaviour oracles on the real classes.',
-   note=TB + 'the Bivariate side of the model (CopulaTypes, __new__/__init__/subclasses, to_dict, from_dict, save/load, the ten queries of the five classes) is generated from the AST by tools/vf/bivlifegen.py and proved equal to Model.Lifecycle (Props/C14_biv.v: C14_bridge_*; connecting lemmas to the C10 model BivCtl); the univariate / Gaussian-multivariate to_dict / from_dict are generated and bridged in C19 (C19_bridge_to_dict / _from_dict, C19_bridge_gm_to_dict / _from_dict); pickle/json are oracles (deep copy incl. instance overrides / identity on JSON-able values); large vine payload arrays enter the model as injective tokens and are compared bitwise in the harness.',
+   note=TB + 'the Bivariate side of the model (CopulaTypes, __new__/__init__/subclasses, to_dict, from_dict, save/load, the ten queries of the five classes) is generated from the AST by tools/vf/bivlifegen.py and proved equal to Model.Lifecycle (Props/C14_biv.v: C14_bridge_*; connecting lemmas to the C10 model BivCtl); the univariate / Gaussian-multivariate to_dict / from_dict are generated and bridged in C19 (C19_bridge_to_dict / _from_dict, C19_bridge_gm_to_dict / _from_dict); Edge.to_dict, Tree.to_dict / from_dict and VineCopula._deserialize_trees are generated by tools/vf/vineserialgen.py and proved equal to Spec/VineSerial (Props/C14_vine.v: C14_bridge_Edge_to_dict .. C14_bridge_deserialize_trees); Edge.from_dict and VineCopula.to_dict / from_dict stay hand-written unless Props/C14_rest.v is present; pickle/json are oracles (deep copy incl. instance overrides / identity on JSON-able values); large vine payload arrays enter the model as injective tokens and are compared bitwise in the harness.',
    technique='Coq induction over round-trip counts on serialisation models; bivariate constructor / serialisation / query skeleton generated from the AST with bridge theorems (C14_bridge_*); AST key facts; kernel-checked dict correspondence',
    ref='DESIGN.md section 7, C14'),
 })
